@@ -8,9 +8,11 @@ package main
 
 import (
 	"bufio"
+	"bytes"
 	"errors"
 	"fmt"
 	"io"
+	"strings"
 
 	"github.com/Comcast/gots/v2/packet"
 )
@@ -307,6 +309,16 @@ func init() {
 				return VBad()
 			}
 		}
+		// the accumulator stays alive while OTHER accumulators are created and fed (stable.go decoy phase): what it holds
+		// must not move (seeded C17-v2: one package-level packet list behind all accumulators)
+		keepView("the accumulator's Bytes() and Packets() after the history", func() string {
+			var sb strings.Builder
+			sb.Write(acc.Bytes())
+			for _, p := range acc.Packets() {
+				sb.Write(p[:])
+			}
+			return sb.String()
+		})
 		return VOk(Val{K: 2, L: outs})
 	})
 }
@@ -383,8 +395,30 @@ type rawCloserSink struct{ rawSink }
 
 func (r rawCloserSink) Close() error { return nil }
 
+// nestedSink: a packet writer that, before it looks at its packet, pushes a marker packet through ANOTHER adapter (a
+// tee, a monitor, a logger built from the same library); the packet it was handed must not change under it (seeded
+// C18-v1: one pooled scratch packet shared by the adapters that are active at the same time)
+type nestedSink struct {
+	*scriptedWriter
+	other packet.Writer
+}
+
+func (n nestedSink) WritePacket(p *packet.Packet) (int, error) {
+	var marker [packet.PacketSize]byte
+	for i := range marker {
+		marker[i] = 0xEE
+	}
+	marker[0] = 0x47
+	n.other.Write(marker[:])
+	n.other.(io.ReaderFrom).ReadFrom(bytes.NewReader(marker[:]))
+	return n.scriptedWriter.WritePacket(p)
+}
+
 func (s *scriptedWriter) adapter(kind int) packet.Writer {
 	switch kind {
+	case 5:
+		other := packet.IOWriter(packet.PacketWriterFunc(func(*packet.Packet) (int, error) { return packet.PacketSize, nil }))
+		return packet.IOWriter(nestedSink{s, other})
 	case 3:
 		return packet.IOWriter(rawSink{s})
 	case 4:
